@@ -157,6 +157,24 @@ pub fn run() {
                     Err(_) => "err object-still-shared".into(),
                 }
             }
+            ["attachagent", bindir, lport] => {
+                // the agent's own attach step (Redirector::attach_bpf_prog: both programs, in its order, at the cgroup2 mount it looks
+                // up itself) with a stand-in `findmnt` first on PATH that names the test cgroup
+                std::env::set_var("PATH", format!("{}:{}", unhex_str(bindir), std::env::var("PATH").unwrap_or_default()));
+                let lport: u16 = lport.parse().unwrap();
+                let rt = tokio::runtime::Builder::new_multi_thread().enable_all().worker_threads(2).build().unwrap();
+                let b = bpf.as_mut().unwrap();
+                let r = rt.block_on(async {
+                    let ss = crate::shared_state::SharedState::start_all();
+                    let red = crate::redirector::Redirector::new(lport, &ss);
+                    red.attach_bpf_prog(b)
+                });
+                drop(rt);
+                match r {
+                    Ok(()) => "ok".into(),
+                    Err(e) => format!("err {}", hex(e.to_string().as_bytes())),
+                }
+            }
             ["dump"] => {
                 let b = bpf.as_ref().unwrap();
                 format!("{} | {} | {} | {}", dump_map::<6, 6>(b, "policy_map"), dump_map::<1, 1>(b, "skip_process_map"), dump_map::<2, 5>(b, "audit_map"),
